@@ -238,7 +238,8 @@ def run_property(col, make_test, max_examples, tag='', stateful_step_count=None,
     import hypothesis.internal.conjecture.engine as _eng
     # bound the time spent minimising one failure (Hypothesis' own cap is 300 s); a budget, not a verdict
     _eng.MAX_SHRINKING_SECONDS = int(os.environ.get('VERIF_SHRINK_S', 40 if col.tier == 'quick' else 240))
-    for rnd in range(MAX_ROUNDS + 1):
+    max_rounds = int(os.environ.get('VERIF_ROUNDS', MAX_ROUNDS))     # sensitivity tools stop at the first root cause
+    for rnd in range(max_rounds + 1):
         col.target_sig = None
         col.last_failure = None
         seed = derive_seed(col.seed, col.prop, tag, col.shard)
@@ -256,6 +257,9 @@ def run_property(col, make_test, max_examples, tag='', stateful_step_count=None,
                 raise HarnessError("violation without recorded failure")
             col.violations.append(lf)
             col.muted.add(lf['sig'])
+            if rnd + 1 >= max_rounds:
+                col.notes.append(f"stopped after {max_rounds} root cause(s) in shard {col.shard} (VERIF_ROUNDS)")
+                return
         except herr.Flaky as e:
             lf = col.last_failure
             if lf is not None:
